@@ -14,8 +14,8 @@ def run(rep):
                 'Non-trivial = record with at least one jump row.')
     rep.assumptions = ['ValueError("No jumps found") is the API contract for an empty jump table and is mapped to the empty table',
                        'jump rows compared as sets plus row count (row order is not part of the property)']
-    sc.leg_m(rep, 'C04', [(5, 2, 1, 2)] if quick else [(7, 2, 1, 3), (5, 3, 1, 3), (4, 2, 2, 2)])
-    sc.leg_a(rep, 'C04', 5 if quick else 7, 2, 2 if quick else 3)
+    sc.leg_m(rep, 'C04', [(5, 2, 1, 3)] if quick else [(7, 2, 1, 3), (5, 3, 1, 3), (4, 2, 2, 2)])
+    sc.leg_a(rep, 'C04', 5 if quick else 7, 2, 3)
     if not quick:
         sc.leg_a(rep, 'C04', 5, 3, 3)
     sc.leg_b(rep, 'C04', 30 if quick else 400, 40 if quick else 60, 3 if quick else 4, 4 if quick else 5,
